@@ -85,10 +85,25 @@ def _order(pa):
             elif re.search(r"fmt::|hint::must_use|Argument::|new_display|new_debug|alloc::fmt", p):
                 continue
             else:
-                out.append("other:%s" % C.short(p))
+                # any other call is an effect only if it is handed (by `&mut`) the client itself or one of the parts
+                # of it the properties talk about; pure computations and calls that mutate locals or unrelated fields
+                # (e.g. a statistics counter) are not
+                muts = e[5] if len(e) > 5 else None
+                if muts is None or any(m[0] == "client" and (len(m) == 1 or str(m[1]) in STATE_FIELDS) for m in muts) \
+                        or any(str(m[0]).startswith("obj:") and "client." in str(m[0]) for m in muts):
+                    out.append("other:%s" % C.short(p))
         elif e[0] in ("write", "write-elem", "write-unknown-pointer"):
-            out.append("write:%s" % (".".join(e[2]) if len(e) > 2 else "?"))
+            path = tuple(str(x) for x in e[2]) if len(e) > 2 else ()
+            if e[0] == "write" and e[1] == "client" and path and path[0] not in STATE_FIELDS:
+                continue            # a field of the client that no property is about
+            out.append("write:%s" % (".".join(path) if path else "?"))
     return out
+
+
+# the parts of the client the properties are about: transaction table, timers, credential mechanism, RTT estimate,
+# event queue, capacity, configuration and codecs
+STATE_FIELDS = {"transactions", "timeouts", "mechanism", "rtt", "transaction_events", "max_transactions", "use_fingerprint",
+                "encoder", "decoder"}
 
 
 EFFECTFUL = ("recv_message", "transaction_finished", "init")
@@ -251,12 +266,13 @@ def r17_1_reject(ctx, prog, rule="R17.1"):
     # shared-reference facts: decoder.decode, validate_fingerprint, contains_key receive & only
     body = info["body"]
     for rx, what in ((RX_DECODE, "decode"), (RX_FP, "validate_fingerprint"), (RX_CONTAINS, "contains_key")):
-        cs = [c for c in body.calls() if re.search(rx, c.callee_path)]
+        from ..absint import with_new_helpers
+        cs = [c for b2 in with_new_helpers(prog, body) for c in b2.calls() if re.search(rx, c.callee_path)]
         okk = bool(cs)
         for c in cs:
             for a in c.args:
                 if a["k"] in ("copy", "move"):
-                    t = body.local_ty(a["place"]["l"])
+                    t = c.body.local_ty(a["place"]["l"])
                     if t.get("k") == "ref" and t.get("mut"):
                         okk = False
         ctx.ob(rule, "shared-ref:%s" % what, okk, "%s takes only shared references (%d call site(s))" % (what, len(cs)),
